@@ -28,6 +28,7 @@ LAMS = [0.125, 0.5, 1.0, 2.0, 8.0, 32.0, 0.3, 10.0]
 MODELS = ['LinearGAM', 'LinearGAM-known', 'PoissonGAM', 'PoissonGAM-exposure', 'LogisticGAM', 'GammaGAM']
 F_POISSON = 'C10-poissongam-gridsearch-weights-as-exposure'
 F_SKIP = 'C10-joint-grid-skips-valid-candidates'
+F_WARM = 'C10-warm-start-from-other-basis-diverges'
 OBJECTIVES = ['auto', 'auto', 'auto', 'GCV', 'UBRE', 'AIC', 'AICc']
 
 
@@ -355,22 +356,42 @@ def evaluate(res, cfg):
         if not matched:
             outcomes.append('None')
             if indep is not None:
-                # a candidate that can be fitted on its own is missing from the search: is it the one-at-a-time
-                # set_params validating an intermediate (old spline_order, new n_splines) state?
-                seq_fails = False
+                # a candidate that can be fitted on its own is missing from the search.  Replay what the loop does for
+                # it on a deep copy of the searched model (gam = deepcopy(self); set_params(**param_grid) one parameter
+                # at a time; warm start with the coefficients of the model fitted just before; fit) and see which of the
+                # two recorded mechanisms -- and only those -- raised the ValueError that made the loop `continue`:
+                #  F_SKIP: a plural setter validates an intermediate (new n_splines, OLD spline_order) state;
+                #  F_WARM: the warm start has the right length but belongs to another basis and PIRLS diverges.
+                mech = None
                 try:
-                    c = build(cfg)
-                    c._validate_params()
-                    c._validate_data_dep_params(X)
+                    if cfg['fitted']:
+                        c = deepcopy(g0)
+                    else:
+                        c = build(cfg)
+                        c._validate_params()
+                        c._validate_data_dep_params(X)
+                    stage = 'set'
                     for nm, (kind, v) in zip(eff_names, combo):
                         c.set_params(**{nm: (v if kind == 's' else np.array(v))})
-                except ValueError:
-                    seq_fails = True
+                    prev = cand_models[pos - 1][0] if pos > 0 else (g0 if cfg['fitted'] else None)
+                    stage = 'fit'
+                    if prev is not None:
+                        stage = 'warm-fit'
+                        prev_coef = np.array(prev.coef_, dtype=float).copy()
+                        c.set_params(coef_=prev_coef, force=True, verbose=False)
+                    fit(cfg, c, X, y, expo, w)
+                    stage = 'ok'
+                except ValueError as e:
+                    if stage == 'set' and 'n_splines must be > spline_order' in str(e):
+                        mech = F_SKIP
+                    elif stage == 'warm-fit' and 'PIRLS optimization has diverged' in str(e) \
+                            and len(prev_coef) == int(c.terms.n_coefs) and hyper(prev) != want:
+                        mech = F_WARM
                 except Exception:
                     pass
                 viol('a valid element of the Cartesian product was silently skipped by gridsearch', want,
-                     dict(fitted_candidates=[hyper(m) for m, _ in cand_models][:12]), finding=F_SKIP if seq_fails else None)
-                res.count('valid-candidate-skipped')
+                     dict(replayed_stage=stage, fitted_candidates=[hyper(m) for m, _ in cand_models][:12]), finding=mech)
+                res.count('valid-candidate-skipped:%s' % (mech or 'unexplained'))
             continue
         m, sc = cand_models[pos]
         pos += 1
